@@ -848,7 +848,29 @@ def r_slotstate(repo, tier):
                         a = "_%s%s" % (c.name.lstrip("_"), a)
                     stored.add(a)
             # generic restore loops: for k, v in state.items(): setattr(self, k, v)
-            generic = any(isinstance(x, ast.Call) and norm(x.func) == "setattr" for x in ast.walk(ss.node)) or any(isinstance(x, ast.Call) and isinstance(x.func, ast.Attribute) and x.func.attr == "update" and "__dict__" in norm(x.func) for x in ast.walk(ss.node)) or any(isinstance(x, ast.Call) and isinstance(x.func, ast.Attribute) and x.func.attr == "__init__" for x in ast.walk(ss.node))
+            generic = any(isinstance(x, ast.Call) and norm(x.func) == "setattr" and c.name != "reg" for x in ast.walk(ss.node)) or any(isinstance(x, ast.Call) and isinstance(x.func, ast.Attribute) and x.func.attr == "update" and "__dict__" in norm(x.func) for x in ast.walk(ss.node))
+            # a `self.__init__(args)` call restores exactly the slots the constructor copies from a parameter that
+            # receives the state's value for that very slot; derived slots (e.g. sf = x.sf) are NOT restored
+            for x in ast.walk(ss.node):
+                if isinstance(x, ast.Call) and isinstance(x.func, ast.Attribute) and x.func.attr == "__init__" and isinstance(x.func.value, ast.Name) and x.func.value.id == "self":
+                    init = repo.find_method(c, "__init__")
+                    if init is None:
+                        continue
+                    ps = [p.arg for p in init.node.args.args][1:]
+                    argof = dict(zip(ps, x.args))
+                    for k in x.keywords:
+                        if k.arg:
+                            argof[k.arg] = k.value
+                    for st in init.node.body:
+                        if isinstance(st, ast.Assign) and isinstance(st.value, ast.Name) and st.value.id in argof:
+                            for t in st.targets:
+                                if isinstance(t, ast.Attribute) and isinstance(t.value, ast.Name) and t.value.id == "self":
+                                    a = t.attr
+                                    if a.startswith("__") and not a.endswith("__"):
+                                        a = "_%s%s" % (c.name.lstrip("_"), a)
+                                    # the argument must read the state entry of that slot
+                                    if any(isinstance(z, ast.Constant) and z.value in (a, t.attr) for z in ast.walk(argof[st.value.id])):
+                                        stored.add(a)
             missing = [a for a in slots if a not in stored]
             out.inst("%s::%s.__setstate__" % (c.mod.rel, c.name), {"class": c.name, "slots": slots, "restored": sorted(stored), "generic_restore": generic})
             # a class that also defines __getstate__ chooses its own (possibly reduced) state: for it the
@@ -908,4 +930,207 @@ def r_slotstate(repo, tier):
     out.stats["classes"] = n
     if n < 6:
         raise AnalysisError("R-SLOTSTATE: only %d classes with pickling state found" % n)
+    return out
+
+
+# ======================================================================================= width of operand-field returns
+def same_width_fields(repo, c):
+    """fields of class c holding an expression of the same width as self, derived from __init__:
+    `self.size = <p>.size` / `self.size = self.<f>.size` with `self.<f> = <p>`; plus fields whose size is compared
+    with such a field in a raising `if`.  Returns (same, exprfields) or None when size is assigned conditionally."""
+    init = c.methods.get("__init__")
+    if init is None:
+        return None
+    field_of_param = {}
+    fields = set()
+    for n in ast.walk(init.node):
+        if isinstance(n, ast.Assign):
+            for t in n.targets:
+                if isinstance(t, ast.Attribute) and isinstance(t.value, ast.Name) and t.value.id == "self" and isinstance(n.value, ast.Name):
+                    field_of_param[n.value.id] = t.attr
+                    fields.add(t.attr)
+    same = set()
+    size_assigns = [n for n in ast.walk(init.node) if isinstance(n, (ast.Assign, ast.AugAssign)) and any(norm(t) == "self.size" for t in (n.targets if isinstance(n, ast.Assign) else [n.target]))]
+    if len(size_assigns) != 1 or isinstance(size_assigns[0], ast.AugAssign):
+        return (set(), fields) if len(size_assigns) <= 1 else None
+    v = size_assigns[0].value
+    if isinstance(v, ast.Attribute) and v.attr == "size":
+        src = norm(v.value)
+        if src.startswith("self."):
+            same.add(src[5:])
+        elif src in field_of_param:
+            same.add(field_of_param[src])
+    # size equality checks that raise
+    for n in ast.walk(init.node):
+        if isinstance(n, ast.If) and any(isinstance(x, ast.Raise) for x in n.body) and isinstance(n.test, ast.Compare) and isinstance(n.test.ops[0], ast.NotEq):
+            a, b = norm(n.test.left), norm(n.test.comparators[0])
+            if a.endswith(".size") and b.endswith(".size"):
+                fa = field_of_param.get(a[:-5], a[:-5].replace("self.", ""))
+                fb = field_of_param.get(b[:-5], b[:-5].replace("self.", ""))
+                if fa in same:
+                    same.add(fb)
+                if fb in same:
+                    same.add(fa)
+    return same, fields
+
+
+def r_width_fields(repo, tier):
+    out = RuleOut(
+        "R-WIDTHF",
+        "simplify/eval of an expression class never return one of the node's own operand fields whose width is not tied to "
+        "the node's width by the constructor (e.g. the sliced operand x of a slc, the address of a mem, the condition of a "
+        "tst): same-width fields are derived from each __init__ (`self.size = <field>.size` and raising size checks)",
+    )
+    n = 0
+    for c in exp_classes(repo).values():
+        if c.name in ("op",):
+            continue  # operator nodes: width depends on the operator class, decided by R-WIDTH on the eqn helpers
+        sw = same_width_fields(repo, c)
+        if sw is None:
+            out.undecide(EXPR, c.name, "__init__", "size assigned more than once in the constructor")
+            continue
+        same, fields = sw
+        for mname in ("simplify", "eval"):
+            f = c.methods.get(mname)
+            if f is None:
+                continue
+            for r in _walk_no_nested(f.node):
+                if not isinstance(r, ast.Return) or r.value is None:
+                    continue
+                v = r.value
+                # self.F  or self.F.simplify(...)
+                if isinstance(v, ast.Call) and isinstance(v.func, ast.Attribute) and v.func.attr in ("simplify",):
+                    v = v.func.value
+                if isinstance(v, ast.Attribute) and isinstance(v.value, ast.Name) and v.value.id == "self" and v.attr in fields:
+                    n += 1
+                    ok = v.attr in same
+                    out.inst("%s::%s" % (f.key, norm(r)), {"class": c.name, "method": mname, "return": norm(r), "field_same_width": ok, "same_width_fields": sorted(same)})
+                    if not ok:
+                        out.report(EXPR, f.dqual, norm(r), r.lineno, "%s.%s returns its operand field %r, whose width is not the node's width (same-width fields of %s: %s)" % (c.name, mname, v.attr, c.name, sorted(same) or "none"))
+    out.stats["field_returns"] = n
+    if n < 3:
+        raise AnalysisError("R-WIDTHF: only %d operand-field returns found" % n)
+    return out
+
+
+# ======================================================================================= aliasing of mutable containers
+def mutable_container_classes(repo):
+    """exp subclasses with an in-place __setitem__ (stores into self's own fields)"""
+    out = []
+    for c in exp_classes(repo).values():
+        si = c.methods.get("__setitem__")
+        if si is None:
+            continue
+        inplace = False
+        for n in ast.walk(si.node):
+            if isinstance(n, (ast.Assign, ast.AugAssign)):
+                for t in (n.targets if isinstance(n, ast.Assign) else [n.target]):
+                    r, d = _root(t)
+                    if r == "self" and d >= 1:
+                        inplace = True
+            if isinstance(n, ast.Call) and isinstance(n.func, ast.Attribute) and isinstance(n.func.value, ast.Name) and n.func.value.id == "self" and n.func.attr in ("cut", "restruct"):
+                inplace = True
+        if inplace:
+            out.append(c)
+    return out
+
+
+def r_aliasret(repo, tier):
+    out = RuleOut(
+        "R-ALIASRET",
+        "a mutable expression container (an exp subclass whose __setitem__ updates self in place: comp) never hands out "
+        "itself from __getitem__ / eval / copy: `return self` there would make a later in-place part assignment on either "
+        "side visible through the other",
+    )
+    cs = mutable_container_classes(repo)
+    if not any(c.name == "comp" for c in cs):
+        raise AnalysisError("R-ALIASRET: comp is no longer recognised as an in-place container (anchor changed)")
+    n = 0
+    for c in cs:
+        for mname in ("__getitem__", "eval", "copy"):
+            f = c.methods.get(mname)
+            if f is None:
+                continue
+            for r in _walk_no_nested(f.node):
+                if isinstance(r, ast.Return):
+                    n += 1
+                    bad = isinstance(r.value, ast.Name) and r.value.id == "self"
+                    out.inst("%s::%s" % (f.key, norm(r)), {"class": c.name, "method": mname, "return": norm(r), "returns_self": bad})
+                    if bad:
+                        out.report(EXPR, f.dqual, norm(r), r.lineno, "%s.%s returns the container itself; %s is updated in place by its __setitem__ (the mapper keeps one per register), so the caller's object and the stored one become the same" % (c.name, mname, c.name))
+    out.stats["returns"] = n
+    return out
+
+
+def r_own_mapper(repo, tier):
+    from ..cfg import reaching_defs
+
+    out = RuleOut(
+        "R-OWN",
+        "mapper.__setitem__: the object stored for a register location (the branch where the location is not a pointer) is "
+        "owned by the mapper -- every definition of the stored variable reaching the store is a fresh comp(...) or the "
+        "mapper's own entry (self.R(...)); never the caller's value, because register entries are later updated in place",
+    )
+    f = repo.func("amoco/cas/mapper.py", "mapper.__setitem__")
+    cfg = CFG(f.node)
+    params = set(f.params())
+    n = 0
+    # find stores self.__map[K] = X under a negative `loc._is_ptr` guard
+    def guards_of(stmts, target, acc):
+        for s in stmts:
+            if s is target:
+                return acc
+            if isinstance(s, ast.If):
+                r = guards_of(s.body, target, acc + [(s.test, True)])
+                if r is not None:
+                    return r
+                r = guards_of(s.orelse, target, acc + [(s.test, False)])
+                if r is not None:
+                    return r
+            elif isinstance(s, (ast.For, ast.While, ast.With, ast.Try)):
+                for blk in (getattr(s, "body", []), getattr(s, "orelse", []), getattr(s, "finalbody", [])):
+                    r = guards_of(blk, target, acc)
+                    if r is not None:
+                        return r
+                for h in getattr(s, "handlers", []):
+                    r = guards_of(h.body, target, acc)
+                    if r is not None:
+                        return r
+        return None
+
+    for nd in cfg.nodes:
+        s = nd.ast
+        if nd.kind != "stmt" or not isinstance(s, ast.Assign):
+            continue
+        t = s.targets[0]
+        if not (isinstance(t, ast.Subscript) and isinstance(t.value, ast.Attribute) and t.value.attr == "__map" and isinstance(s.value, ast.Name)):
+            continue
+        g = guards_of(f.node.body, s, []) or []
+        reg_branch = any((not pol) and "_is_ptr" in norm(test) for test, pol in g)
+        n += 1
+        var = s.value.id
+        rd = reaching_defs(cfg, var)
+        defs = rd.get(nd.id, frozenset())
+        descr = []
+        bad = []
+        for d in defs:
+            dn = cfg.nodes[d]
+            if dn is cfg.entry:
+                descr.append("parameter/undefined")
+                if var in params:
+                    bad.append("parameter %s" % var)
+                continue
+            v = dn.ast.value if isinstance(dn.ast, ast.Assign) else None
+            txt = norm(v) if v is not None else norm(dn.ast)
+            descr.append(txt[:60])
+            fresh = isinstance(v, ast.Call) and ((isinstance(v.func, ast.Name) and v.func.id in CONSTRUCTORS) or (isinstance(v.func, ast.Attribute) and v.func.attr in ("copy", "R") and (v.func.attr == "copy" or norm(v.func.value) == "self")))
+            if not fresh:
+                bad.append(txt[:80])
+        out.inst("%s::%s" % (f.key, norm(s)), {"store": norm(s), "register_branch": reg_branch, "reaching_definitions": descr})
+        if reg_branch:
+            for b in bad:
+                out.report(f.file, f.dqual, "%s <- %s" % (norm(s), b), s.lineno, "the register entry stored in the mapper can be the caller's own object (%s): it is updated in place by later sub-register writes, which then change the caller's expression (and any other map sharing it)" % b)
+    out.stats["map_stores"] = n
+    if n < 2:
+        raise AnalysisError("R-OWN: stores to self.__map not found in mapper.__setitem__")
     return out
